@@ -24,6 +24,12 @@ def configs(ctx):
         for N in ((5, 8, 12, 17) if L < 8 else (17, 24, 33)):
             one.append(('per', L, N, 2 if L < 8 else 1, 1, 2))
         two.append(('per', 'name', L, L, 9, 12, 2 if L < 8 else 1, 1, 2))
+    # the other documented forms of `wave`: the pywt.Wavelet object itself and a (dec_lo, dec_hi) pair
+    for mode in dwtlib.MODES5:
+        for form in ('object', 'tuple2'):
+            for (L, N) in ((4, 11), (6, 16)):
+                one.append((mode, L, N, 2, 1, 2, form))
+            two.append((mode, form, 4, 4, 9, 12, 2, 1, 2))
     return one, two
 
 
